@@ -544,7 +544,15 @@ fn render_policy(p: &CPolicy, out: &mut String) {
             render_policy(k, &mut s);
         }
         s.push(']');
-        f.push(s);
+        // the order of the keys of a YAML mapping carries no meaning: write `policies:` before the
+        // match-/apply- keys for about half of the policies (a pure function of the policy, so that
+        // a replayed case renders the same text)
+        let h = p.ad.len() + 3 * p.kids.len() + p.ao.len() + p.sn.map(|(n, l)| (n as usize >> 4) + l as usize).unwrap_or(1);
+        if h % 2 == 0 {
+            f.insert(0, s);
+        } else {
+            f.push(s);
+        }
     }
     out.push('{');
     out.push_str(&f.join(", "));
@@ -578,7 +586,14 @@ pub fn render_yaml(c: &Conf) -> String {
             c.addresses
                 .iter()
                 .map(|a| match a {
-                    Pfx::P4(n, l) => format!("\"{}/{}\"", ip(*n), l),
+                    // a prefix may be written with host bits set (e.g. the router's own address);
+                    // it names the same subnet.  Done for about a third of the prefixes, as a pure
+                    // function of the prefix.
+                    Pfx::P4(n, l) => {
+                        let hostmask: u32 = if *l >= 32 { 0 } else { u32::MAX >> *l };
+                        let written = if (*n >> 8).wrapping_add(*l as u32) % 3 == 0 { *n | ((*n >> 5).wrapping_mul(2654435761) & hostmask) } else { *n };
+                        format!("\"{}/{}\"", ip(written), l)
+                    }
                     Pfx::P6 => "\"2001:db8::/64\"".to_string(),
                 })
                 .collect::<Vec<_>>()
